@@ -28,7 +28,9 @@ def case_strategy():
         uniform = draw(st.booleans())
         ustart = draw(st.sampled_from([9, 9, 1, 2]))  # positions >= ustart are named uniformly even if not `uniform`
         host = draw(st.sampled_from(["func", "func", "attr", "mc"]))
-        kwpool = ["k0", "k1", "k2"]
+        # keyword-only names, sometimes ones that the generated entry point might use for itself
+        kwpool = draw(st.sampled_from([["k0", "k1", "k2"]] * 4 + [["type", "MISSING", "method"], ["KWARGS", "TARGS", "k0"],
+                                                                     ["OVLD", "isinstance", "tuple"], ["ARG0", "self_", "HANDLER0"]]))
         methods = []
         zero_used = False
         for i in range(nm):
